@@ -180,7 +180,7 @@ def run_block(block, rec):
     elif sp == "events1":
         kinds = event_kinds(task, block["tier"])
         flags = [[0, 0]] if task == "sound_event_classification" else (
-            [[0, 0], [1, 1]] if block["tier"] == "quick" else [[0, 0], [1, 0], [0, 1], [1, 1]])
+            [[0, 0], [1, 1], [0, 2]] if block["tier"] == "quick" else [[0, 0], [1, 0], [0, 1], [1, 1], [0, 2], [1, 2]])
         for f in block["first"]:
             for rest in lists_upto(kinds, 1):
                 for fl in flags:
@@ -195,6 +195,9 @@ def run_block(block, rec):
         for f in block["first"]:
             for second in seconds:
                 rec.add(run_case({"task": task, "k": k, "clips": [lists[f], second], "extra": [0, 0]}))
+                if task == "sound_event_classification" and lists[f] and second:
+                    # the same sound event annotated (and predicted) in both clips, each clip with its own tags and scores
+                    rec.add(run_case({"task": task, "k": k, "clips": [lists[f], second], "extra": [0, 0], "shared": 1}))
 
 
 # ---------------------------------------------------------------- building inputs
@@ -234,6 +237,7 @@ def build(case):
     cas, cps = [], []
     clip_level = task in ("clip_classification", "clip_multilabel_classification")
     extra = case.get("extra") or [0, 0]
+    first_event = [None]
     for ci, items in enumerate(case["clips"]):
         clip = data.Clip(uuid=U("clip%d" % ci), recording=REC, start_time=float(10 * ci), end_time=float(10 * ci + 10))
         if clip_level:
@@ -244,6 +248,10 @@ def build(case):
         seas, seps = [], []
         for j, (truth, vec) in enumerate(items):
             se = data.SoundEvent(uuid=U("se%d.%d" % (ci, j)), recording=REC, geometry=box(j))
+            if case.get("shared") and ci == 1 and j == 0 and first_event[0] is not None:
+                se = first_event[0]  # the very sound event of clip 0's first item, annotated (and predicted) again in this clip
+            if ci == 0 and j == 0:
+                first_event[0] = se
             if task == "sound_event_detection":
                 # distinct sound event objects with identical geometry: matched by overlap, not by identity
                 se_p = data.SoundEvent(uuid=U("sep%d.%d" % (ci, j)), recording=REC, geometry=box(j))
@@ -255,8 +263,9 @@ def build(case):
             se = data.SoundEvent(uuid=U("sex%d" % ci), recording=REC, geometry=box(7))
             seps.append(data.SoundEventPrediction(uuid=U("px%d" % ci), sound_event=se, tags=ptags([0.5] + [0.25] * (k - 1), V)))
         if ci == 0 and extra[1]:
+            # an annotation no prediction overlaps: with a vocabulary tag (1) or with an out-of-vocabulary tag only (2)
             se = data.SoundEvent(uuid=U("sey%d" % ci), recording=REC, geometry=box(9))
-            seas.append(data.SoundEventAnnotation(uuid=U("ax%d" % ci), sound_event=se, tags=[V[k - 1]]))
+            seas.append(data.SoundEventAnnotation(uuid=U("ax%d" % ci), sound_event=se, tags=[V[k - 1]] if extra[1] == 1 else [OOV]))
         cas.append(data.ClipAnnotation(uuid=U("ca%d" % ci), clip=clip, sound_events=seas))
         cps.append(data.ClipPrediction(uuid=U("cp%d" % ci), clip=clip, sound_events=seps))
     return V, cas, cps
@@ -395,6 +404,42 @@ def check_evaluation(out, task, V, cas, cps, ev, cls):
     return len(vs)
 
 
+def check_items_as_given(out, case, task, V, ev, cls):
+    """Sound-event tasks: per clip, the (true class, score vector) pairs the evaluation is built on - read from its matches - are the
+    pairs the INPUT prescribes (annotation j with the prediction of the same / the overlapping sound event j, each clip with its own
+    annotations), not merely some self-consistent pairing."""
+    if task not in ("sound_event_classification", "sound_event_detection"):
+        return
+    k = case["k"]
+    extra = case.get("extra") or [0, 0]
+    by_clip = {str(ce.annotations.clip.uuid): ce for ce in ev.clip_evaluations}
+    for ci, items in enumerate(case["clips"]):
+        exp = []
+        for truth, vec in items:
+            y = None
+            for t in truth:
+                if isinstance(t, int) and t < len(V):
+                    y = t
+                    break
+            exp.append((y, tuple(float(x) for x in vec)))
+        if ci == 0 and extra[0]:
+            exp.append((None, tuple([0.5] + [0.25] * (k - 1))))
+        if ci == 0 and extra[1]:
+            exp.append((k - 1 if extra[1] == 1 else None, tuple([0.0] * k)))
+        ce = by_clip.get(str(U("clip%d" % ci)))
+        if ce is None:
+            out.fail("items_as_given", "clip %d not evaluated" % ci, "one clip evaluation per annotated clip", dict(cls, part="clip_missing"))
+            continue
+        got = []
+        for m in ce.matches:
+            y = first_class(m.target.tags, V) if m.target is not None else None
+            vec = vector(m.source.tags, V) if m.source is not None else [0.0] * len(V)
+            got.append((y, tuple(float(x) for x in vec)))
+        key = lambda p: (-1 if p[0] is None else p[0], p[1])  # noqa: E731
+        out.expect("items_as_given", sorted(got, key=key) == sorted(exp, key=key), sorted(got, key=key), sorted(exp, key=key),
+                   dict(cls, part="pairs", shared=bool(case.get("shared"))), {"clip": ci})
+
+
 def summary(ev):
     """Order-independent summary of an evaluation for the invariance oracles."""
     clips = {}
@@ -455,6 +500,7 @@ def run_case(case):
     out.ok("no_crash_in_domain")
     out.expect("clips_evaluated", len(ev.clip_evaluations) == len(cas), len(ev.clip_evaluations), len(cas), cls)
     nvec = check_evaluation(out, task, V, cas, cps, ev, cls)
+    check_items_as_given(out, case, task, V, ev, cls)
     # order invariance: every permutation of the prediction list, and the reversed annotation list
     base = summary(ev)
     perms = list(itertools.permutations(range(len(cps))))[1:]
